@@ -59,7 +59,8 @@ def oracle(ctx, search):
     trc, tcases, torc, terr = waterlib.run_trace(ctx)
     if trc != 0:
         fails.append(Fail(key="trace-crash", what="traced run aborted", stderr=terr[-800:]))
-    for l in orc + [t for t in torc if t.startswith(("wg-", "state-not-finite", "fc-below-gw"))]:
+    rc1, cases1, orc1, other1, err1 = waterlib.run_harness(ctx, "c01", c01._args(ctx))
+    for l in orc + [t for t in torc + orc1 if t.startswith(("wg-", "state-not-finite", "fc-below-gw", "substep-"))]:
         fails.append(Fail(key=re.sub(r"(value|wg|start|end|fc|limit|maxcaps|w|porges)=\S+", "", l)[:100].strip(), what=l))
     days = [x for x in tcases if x["k"] == "day"]
     ctx.extra["traced_days_checked_for_bounds_and_finiteness"] = len(days)
